@@ -10,7 +10,7 @@ import hashlib
 import sys
 import z3
 from . import sym
-from .sym import SInt, ZInt, SBool, Unsupported
+from .sym import SInt, ZInt, SBool, Unsupported, check
 from .sbytes import SBytes, SStr, SHash, FakeHashlib, fake_digest_ctor, bytes_of, DIGEST_SIZES, uf, _t8, _named
 
 PRIM_CALLS = []
@@ -244,4 +244,185 @@ def cone(path, roots, depth=2):
         frontier = nxt
         if not frontier:
             break
-    return out + ideal_axioms(*apps)
+    return out + ideal_axioms(*(apps + [t for t in roots if z3.is_expr(t)])) + wide_agreement(apps[:0] + [a for a in apps])
+
+
+def wide_agreement(apps, min_bytes=8):
+    """idealisation for formats that keep only part of a digest (cisco_pix drops every 4th byte): two digests of the same
+    width that agree in `min_bytes` or more byte positions are the same digest.  Pairwise, over the given applications."""
+    ax = []
+    byw = {}
+    for a in apps:
+        byw.setdefault(a.size(), []).append(a)
+    for w, group in byw.items():
+        if w < 8 * min_bytes or len(group) > 12:
+            continue
+        n = w // 8
+        for i in range(len(group)):
+            for j in range(i + 1, len(group)):
+                a, b = group[i], group[j]
+                same = [z3.If(z3.Extract(8 * k + 7, 8 * k, a) == z3.Extract(8 * k + 7, 8 * k, b), 1, 0) for k in range(n)]
+                ax.append(z3.Implies(z3.Sum(same) >= min_bytes, a == b))
+    return ax
+
+
+# ------------------------------------------------------------------ external / composite primitives
+class FakeBcryptModule:
+    """stands in for the `bcrypt` package inside passlib.handlers.bcrypt: hashpw(secret, config) = config + bcrypt64(U(secret, config))"""
+    __version__ = "stub"
+
+    @staticmethod
+    def hashpw(secret, config):
+        from .hashenv import sym_engine_for
+        import passlib.utils.binary as B
+        cfg = SBytes.lift(bytes(config) if isinstance(config, (bytes, bytearray)) else config)
+        raw = prim("bcrypt", 23, secret, cfg)
+        eng = sym_engine_for(B.bcrypt64)
+        enc = eng.encode_bytes(raw)
+        return SBytes(list(cfg.b[:29]) + list(SBytes.lift(enc).b))
+
+
+class FakeScryptModule:
+    def __init__(self, real):
+        self._real = real
+
+    def scrypt(self, secret, salt, n, r, p=1, keylen=32):
+        sec = secret.encode("utf-8") if isinstance(secret, (str, SStr)) else secret
+        slt = salt.encode("utf-8") if isinstance(salt, (str, SStr)) else salt
+        return prim("scrypt", keylen, sec, slt, n, r, p)
+
+    def __getattr__(self, k):
+        return getattr(self._real, k)
+
+
+def saslprep_stub(source, param="value"):
+    """SASLprep is the identity on printable ASCII without blanks; symbolic text is only admitted inside that range"""
+    import passlib.utils as U
+    if isinstance(source, str):
+        return U.saslprep(source, param)
+    if isinstance(source, SStr):
+        for ch in source.c:
+            if isinstance(ch, str):
+                if not (0x21 <= ord(ch) <= 0x7E):
+                    raise Unsupported("saslprep outside printable ASCII")
+            elif not sym._forced(z3.And(z3.UGE(ch, 0x21), z3.ULE(ch, 0x7E))):
+                raise Unsupported("saslprep of a symbolic character that may leave printable ASCII")
+        return source
+    raise TypeError("input must be string, not %s" % type(source))
+
+
+def extra_triples():
+    """module-level rebinding for primitives that are not found by identity in the hasher's own modules"""
+    import passlib.handlers.bcrypt as HB
+    import passlib.handlers.scrypt as HS
+    import passlib.handlers.scram as HSC
+    import passlib.crypto.des as DES
+    import passlib.utils as U
+    out = [(HB, "_bcrypt", FakeBcryptModule), (HS, "_scrypt", FakeScryptModule(HS._scrypt)), (HSC, "saslprep", saslprep_stub)]
+    for k, v in make_des_stubs().items():
+        out.append((DES, k.__name__, v))
+    import passlib.crypto.digest as D
+    for k, v in make_digest_stubs().items():
+        out.append((D, k.__name__, v))          # late / function-local imports of the helpers get the stand-ins too
+    return out
+
+
+# ------------------------------------------------------------------ instantiating the no-collision facts along a chain
+def _named_vars(t, defs):
+    out, seen, stack = [], set(), [t]
+    while stack:
+        x = stack.pop()
+        i = x.get_id()
+        if i in seen:
+            continue
+        seen.add(i)
+        if i in defs:
+            out.append(defs[i][0])
+            continue
+        if z3.is_app(x):
+            stack.extend(x.children())
+    return out
+
+
+def _byte(term, k, n):
+    """byte k (0 = most significant) of an n-byte term, simplified"""
+    hi = 8 * (n - k) - 1
+    return z3.simplify(z3.Extract(hi, hi - 7, term))
+
+
+def _digest_byte(b, defs):
+    """(named digest var, bit offset) if b is one byte of a named digest, else None"""
+    if z3.is_app_of(b, z3.Z3_OP_EXTRACT) and b.arg(0).get_id() in defs:
+        hi, lo = b.params()
+        return b.arg(0), lo
+    if b.get_id() in defs and b.size() == 8:
+        return b, 0
+    return None
+
+
+def chain_facts(path, eq, min_bytes=8, limit=20000):
+    """Consequences of the equality `eq` (a z3 Bool over named digest outputs) under the idealised primitives, obtained by
+    instantiating 'equal outputs of one primitive have equal inputs' along the chain of definitions: returns
+    ('contradiction', []) when two different primitives / shapes would have to agree, else ('facts', [byte equalities]).
+    Every returned fact is implied by path & eq & the no-collision idealisation (so adding them keeps 'unsat' sound)."""
+    defs = {}
+    for n in path.notes:
+        if isinstance(n, tuple) and len(n) == 3 and n[0] == "def":
+            defs[n[1].get_id()] = (n[1], n[2])
+    names = _named_vars(eq, defs)
+    facts = []
+    work = []
+    done = set()
+    base = [path.cond(), eq]
+
+    def agree(x, y):
+        """do x and y (same width) provably agree in >= min_bytes byte positions, given path & eq ?"""
+        n = x.size() // 8
+        cnt = 0
+        for k in range(n):
+            if check(*base, _byte(x, k, n) != _byte(y, k, n), timeout_ms=5000)[0] == "unsat":
+                cnt += 1
+                if cnt >= min(min_bytes, n):
+                    return True
+        return False
+    for i in range(len(names)):
+        for j in range(i + 1, len(names)):
+            x, y = names[i], names[j]
+            if x.size() == y.size() and agree(x, y):
+                work.append((x, y))
+    steps = 0
+    while work:
+        x, y = work.pop()
+        key = (x.get_id(), y.get_id())
+        if key in done or x.eq(y):
+            continue
+        done.add(key)
+        steps += 1
+        if steps > limit:
+            return "limit", facts
+        ax, ay = defs[x.get_id()][1], defs[y.get_id()][1]
+        facts.append(x == y)
+        if not ax.decl().eq(ay.decl()):
+            return "contradiction", facts
+        votes = {}
+        for k in range(ax.num_args()):
+            a, b = ax.arg(k), ay.arg(k)
+            n = a.size() // 8
+            if a.size() % 8:
+                facts.append(a == b)
+                continue
+            for q in range(n):
+                ba, bb = _byte(a, q, n), _byte(b, q, n)
+                if ba.eq(bb):
+                    continue
+                if z3.is_bv_value(ba) and z3.is_bv_value(bb):
+                    return "contradiction", facts
+                da, db = _digest_byte(ba, defs), _digest_byte(bb, defs)
+                if da is not None and db is not None and da[1] == db[1] and da[0].size() == db[0].size():
+                    kk = (da[0].get_id(), db[0].get_id())
+                    votes.setdefault(kk, [da[0], db[0], 0])[2] += 1
+                facts.append(ba == bb)
+        for u, v, c in votes.values():
+            if c >= min(min_bytes, u.size() // 8):
+                work.append((u, v))
+    return "facts", facts
